@@ -15,7 +15,9 @@ harness scheduler, at schedule points that differ between the two runs.
 False-alarm guards: the harness stops delivering after the server called loseConnection(), as a TCP
 transport stops reading (otherwise line-buffer leftovers after a 400 would be parsed on the next
 delivery); while the channel pauses its transport (more than 16 KiB buffered behind a deferred
-request) the harness holds the remaining segments and continues after the resume; in the Site
+request) the harness holds the remaining segments and continues after the resume; 30 % of the
+streams run (both deliveries) on a transport that reports connectionLost from inside the server's
+loseConnection(); in the Site
 configuration the value of the `Date` header (wall clock) is masked.
 
 This module also hosts the server harness (`Server`) shared by C19 and C21.
@@ -45,11 +47,28 @@ READY = True
 # --------------------------------------------------------------------------------------------------
 # shared harness
 # --------------------------------------------------------------------------------------------------
+class SyncCloseTransport(netsim.SimTransport):
+    """A transport that reports the disconnection from inside loseConnection() when nothing keeps the
+    connection open (no producer registered) — as StringTransportWithDisconnection does, and as
+    abstract.FileDescriptor.loseConnection does when the write side is already closed.  The bytes
+    written so far stay in `written` (they were handed to the network before the close)."""
+
+    on_sync_close = None
+
+    def loseConnection(self, _connDone=None):
+        first = not self.disconnecting and not self.disconnected
+        netsim.SimTransport.loseConnection(self)
+        if first and self.producer is None and self.on_sync_close is not None:
+            self.log.append((self.name, "connectionLost-inside-loseConnection"))
+            self.on_sync_close()
+
+
 class Server:
     """One server connection on a SimTransport.  `responder(server, request, record)` is called from
-    process()/render(); the default answers deterministically (possibly deferred)."""
+    process()/render(); the default answers deterministically (possibly deferred).  sync_close: the
+    transport calls connectionLost re-entrantly from inside the server's own loseConnection()."""
 
-    def __init__(self, config="channel", responder=None, defer=True):
+    def __init__(self, config="channel", responder=None, defer=True, sync_close=False):
         from twisted.internet import task
         from twisted.web import http
 
@@ -84,7 +103,11 @@ class Server:
 
             self.factory = http.HTTPFactory(timeout=None, reactor=self.clock)
             self.request_class = RecReq
-        self.transport = netsim.SimTransport("srv", log=self.events)
+        if sync_close:
+            self.transport = SyncCloseTransport("srv", log=self.events)
+            self.transport.on_sync_close = self._sync_close
+        else:
+            self.transport = netsim.SimTransport("srv", log=self.events)
         self.proto = self.factory.buildProtocol(self.transport.getPeer())
         if config != "site":
             self.proto.requestFactory = self.request_class
@@ -140,6 +163,12 @@ class Server:
                 self.dropped += len(data)
             else:
                 self._deliver(data)
+
+    def _sync_close(self):
+        from twisted.internet import error
+        from twisted.python import failure
+
+        self.lose(failure.Failure(error.ConnectionDone()))
 
     def lose(self, reason=None):
         from twisted.internet import error
@@ -209,10 +238,10 @@ def _mask(config, out):
     return re.sub(rb"\r\nDate: [^\r\n]*", b"\r\nDate: <masked>", out)
 
 
-def run_delivery(config, pieces, finish_points=()):
+def run_delivery(config, pieces, finish_points=(), sync_close=False):
     """Deliver `pieces`; finish one deferred answer after piece i for every i in finish_points.
     -> observation dict."""
-    s = Server(config)
+    s = Server(config, sync_close=sync_close)
     fp = set(finish_points)
     try:
         for i, p in enumerate(pieces):
@@ -233,8 +262,8 @@ def run_delivery(config, pieces, finish_points=()):
         s.cleanup()
 
 
-def compare(ctx, config, stream, whole, pieces, finish_points, how, nontrivial=True):
-    got = run_delivery(config, pieces, finish_points)
+def compare(ctx, config, stream, whole, pieces, finish_points, how, nontrivial=True, sync_close=False):
+    got = run_delivery(config, pieces, finish_points, sync_close)
     ctx.count("split_runs_compared")
     ctx.count("requests_compared", len(whole["requests"]))
     ctx.evaluated()
@@ -254,7 +283,7 @@ def compare(ctx, config, stream, whole, pieces, finish_points, how, nontrivial=T
     else:
         key = "segmentation-changes-output"
     ctx.violation(key, "split delivery differs from whole delivery in: " + ", ".join(diffs), {
-        "config": config, "stream": stream, "pieces": pieces, "finish_points": sorted(finish_points), "how": how,
+        "config": config, "sync_close": sync_close, "stream": stream, "pieces": pieces, "finish_points": sorted(finish_points), "how": how,
         "differs_in": diffs, "expected_whole": whole, "observed_split": got})
     return False
 
@@ -366,8 +395,8 @@ def split_plans(ctx, rng, stream, extra_marks=()):
                 yield [stream[:a], stream[a:b], stream[b:]], "2cut-mark"
 
 
-def check_stream(ctx, rng, config, stream, desc, extra_marks=()):
-    whole = run_delivery(config, [stream])
+def check_stream(ctx, rng, config, stream, desc, extra_marks=(), sync_close=False):
+    whole = run_delivery(config, [stream], (), sync_close)
     ctx.evaluated()
     if whole["stuck"]:
         ctx.violation("whole-delivery-stuck", "deferred answers or held input left after quiescence", {"config": config, "stream": stream, "observed": whole})
@@ -391,7 +420,7 @@ def check_stream(ctx, rng, config, stream, desc, extra_marks=()):
         if whole["n_deferred"] and rng.random() < 0.7:
             fps = set(rng.sample(range(len(pieces)), min(len(pieces), rng.randint(1, 3))))
         ctx.count("splits_" + how.split("-")[0])
-        ok = compare(ctx, config, stream, whole, pieces, fps, how, nontrivial)
+        ok = compare(ctx, config, stream, whole, pieces, fps, how, nontrivial, sync_close)
         k += 1
         if not ok:
             break
@@ -421,7 +450,10 @@ def run(ctx):
         ctx.count("stream_bytes", len(stream))
         for d in desc:
             ctx.seen("stream_kinds", d.split(":")[0])
-        check_stream(ctx, rng, config, stream, desc, marks)
+        sync_close = ctx.case_rng(i, "sync-close").random() < 0.3
+        if sync_close:
+            ctx.count("streams_on_sync_close_transport")
+        check_stream(ctx, rng, config, stream, desc, marks, sync_close)
 
 
 def _unb(x):
@@ -442,6 +474,7 @@ def replay(ctx, w):
     if stream is None or any(p is None for p in pieces):
         print("replay: stream too long for the witness file; re-run with VERIF_SEED=%s" % w.get("seed"))
         return
-    whole = run_delivery(x["config"], [stream])
+    sc = bool(x.get("sync_close"))
+    whole = run_delivery(x["config"], [stream], (), sc)
     if pieces:
-        compare(ctx, x["config"], stream, whole, pieces, set(x.get("finish_points", [])), x.get("how", "replay"))
+        compare(ctx, x["config"], stream, whole, pieces, set(x.get("finish_points", [])), x.get("how", "replay"), True, sc)
